@@ -17,3 +17,15 @@ static int fillAll(ctlMeta *m, uint64_t n) { if (n == 0) return 0; m->min = n; m
 uint64_t ctl_clean_status(uint64_t n) { ctlMeta m; if (!fillAll(&m, n)) return 0; return m.min + m.count + m.width; }  /* written on the success class */
 uint64_t ctl_clean_memset(uint64_t n) { ctlMeta m; memset(&m, 0, sizeof m); m.min = n; ctlOut o; o.m = m; o.size = 1; return o.m.count + o.size; }
 ctlMeta *ctl_clean_ctor(uint64_t n) { ctlMeta *m = calloc(1, sizeof *m); if (!m) return NULL; m->min = n; return m; }
+
+static uint64_t sumall(const uint64_t *a, size_t n) { uint64_t s = 0; for (size_t i = 0; i < n; i++) s += a[i]; return s; }
+uint64_t ctl_array_partial(const uint64_t *in, size_t n) {      /* S3: odd positions never written, then read whole */
+    uint64_t *t = malloc(n * 8); if (!t) return 0;
+    for (size_t i = 0; i < n; i++) { if (in[i] & 1) continue; t[i] = in[i]; }
+    uint64_t r = sumall(t, n); free(t); return r;
+}
+uint64_t ctl_clean_array(const uint64_t *in, size_t n) {
+    uint64_t *t = malloc(n * 8); if (!t) return 0;
+    for (size_t i = 0; i < n; i++) { t[i] = (in[i] & 1) ? 0 : in[i]; }
+    uint64_t r = sumall(t, n); free(t); return r;
+}
